@@ -454,7 +454,7 @@ def verify(c: Contract, call: Callable[[Dict[str, Any], Dict[str, Any]], Any],
             except Exception as e:
                 if type(e).__name__ == "_Timeout":
                     raise
-                if _about_a_model_object(e):
+                if _about_a_model_object(e) or (type(e).__module__ or "").startswith("z3"):
                     raise Unsupported(f"operation not modelled: {type(e).__name__}: {e}")
                 if _origin_is_engine(e.__traceback__) and not isinstance(e, tuple(EXC_NS[k] for k in c.raises if k in EXC_NS)):
                     raise Unsupported(f"engine error {type(e).__name__}: {e} :: " + " <- ".join(f"{f.filename.split('/')[-1]}:{f.lineno}:{f.name}" for f in traceback.extract_tb(e.__traceback__)[-5:]))
